@@ -56,6 +56,11 @@ func leavesJSON() []*qast.Node {
 		L(qast.Leaf{Kind: qast.LRange, Field: "f", Lo: qast.Star, Hi: qast.Star, Incl: false}),
 		L(qast.Leaf{Kind: qast.LRange, Field: "f", Lo: qast.Q("a b"), Hi: qast.Q(""), Incl: true}),
 		L(qast.Leaf{Kind: qast.LGt, Field: "f", Val: qast.Q("")}),
+		// integers beyond 2^53 in every position
+		L(qast.Leaf{Kind: qast.LRange, Field: "f", Lo: qast.I("9007199254740993"), Hi: qast.Star, Incl: true}),
+		L(qast.Leaf{Kind: qast.LRange, Field: "f", Lo: qast.I("-9223372036854775808"), Hi: qast.I("9223372036854775807"), Incl: false}),
+		L(qast.Leaf{Kind: qast.LList, Field: "f", List: []qast.Value{qast.I("9007199254740993"), qast.I("1")}}),
+		L(qast.Leaf{Kind: qast.LGt, Field: "f", Val: qast.I("9007199254740993")}),
 		// the encoding's own key words as data
 		L(qast.Leaf{Kind: qast.LRange, Field: "f", Lo: qast.W("left"), Hi: qast.W("right"), Incl: true}),
 		L(qast.Leaf{Kind: qast.LRange, Field: "min", Lo: qast.W("min"), Hi: qast.W("max"), Incl: false}),
@@ -129,7 +134,7 @@ func init() {
 		},
 		Deadline: func(tier string) int {
 			if tier == "thorough" {
-				return 1000
+				return 2000
 			}
 			return 300
 		},
